@@ -188,6 +188,19 @@ def gen_schedule(rng, opts, status_targets):
         a.pop('else', None)
         if b['priority'] == a['priority']:
             b['priority'] = a['priority'] % 5 + 1
+    # several simple controls on different targets due at exactly the same (mostly off-grid) instant: every one of them acts
+    simple = [cs for cs in out if cs['kind'] == 'time' and not cs.get('clock') and cs['attr'] == 'status']
+    if simple and rng.random() < 0.35:
+        a = rng.choice(simple)
+        others = [t_ for t_ in status_targets if t_ != a['target']]
+        for k in range(rng.randint(1, 2)):
+            if not others:
+                break
+            tg = others.pop(rng.randrange(len(others)))
+            cs = {'kind': 'time', 'name': 's%d' % (k + 1), 'time': a['time'], 'target': tg, 'attr': 'status', 'value': rng.choice(['CLOSED', 'CLOSED', 'OPEN'])}
+            if a.get('daily'):
+                cs['daily'] = True
+            out.append(cs)
     return out
 
 
